@@ -30,6 +30,23 @@ def mask(w):
   return (1 << w) - 1
 
 
+def may_be_int(e):
+  """True when the PYTHON simulation of e can produce a plain int (a literal, a free variable, or a conditional expression
+  with such a branch): under ~, or next to another such operand, python computes on unbounded ints instead of Bits"""
+  if e[0] == "c": return e[2] is None
+  if e[0] == "fv": return True
+  if e[0] == "ite": return may_be_int(e[2]) or may_be_int(e[3])
+  return False
+
+
+def make_explicit(e, w):
+  """e re-written so that every value it can produce is a Bits of width w"""
+  if e[0] == "c": return ["c", e[1], w]
+  if e[0] == "fv": return ["c", e[2], w]
+  if e[0] == "ite": return ["ite", e[1], make_explicit(e[2], w), make_explicit(e[3], w)]
+  return e
+
+
 # ---------------------------------------------------------------------------
 # type helpers
 # ---------------------------------------------------------------------------
@@ -667,18 +684,21 @@ class Gen:
       b = self.const(w) if rng.random() < 0.3 else self.expr(w, srcs, depth - 1)
       if rng.random() < 0.3 and b[0] != "c": a, b = b, a
       if ewidth(a) is None and ewidth(b) is None: a = self.leaf(w, srcs)
+      if may_be_int(a) and may_be_int(b): a = make_explicit(a, w)
       return ["bin", op, a, b]
     if r < 0.55:
       op = rng.choice(["shl", "shr"])
       a = self.expr(w, srcs, depth - 1)
       if ewidth(a) is None: a = self.leaf(w, srcs)
+      a = make_explicit(a, w)
       amt = ["c", rng.choice([0, 1, w - 1, w, rng.randrange(0, w + 2)]) & mask(w), None] if rng.random() < 0.6 else self.expr(w, srcs, depth - 2)
+      if amt[0] != "c": amt = make_explicit(amt, w)
       if ewidth(amt) is None and amt[1] > mask(w): amt = ["c", amt[1] & mask(w), None]
       return ["bin", op, a, amt]
     if r < 0.62:
       a = self.expr(w, srcs, depth - 1)
       if ewidth(a) is None: a = self.leaf(w, srcs)
-      return ["inv", a]
+      return ["inv", make_explicit(a, w)]
     if r < 0.72 and w > 1:
       k = rng.randrange(1, w)
       return ["cat", [self.expr(w - k, srcs, depth - 1) if False else self._explicit(w - k, srcs, depth - 1),
@@ -686,6 +706,12 @@ class Gen:
     if r < 0.82:
       c = self.cond(srcs, depth - 1)
       a, b = self._explicit(w, srcs, depth - 1), self._explicit(w, srcs, depth - 1)
+      if self.k.get("p_ite_const") and rng.random() < self.k["p_ite_const"]:
+        # literal branches (possibly both, possibly of different implicit sizes)
+        r2 = rng.random()
+        if r2 < 0.4: a, b = self.const(w), self.const(w)
+        elif r2 < 0.7: a = self.const(w)
+        else: b = self.const(w)
       return ["ite", c, a, b]
     if r < 0.9:
       w0 = rng.choice([x for x in self.k["widths"] if x != w] or [w + 1])
@@ -697,8 +723,8 @@ class Gen:
 
   def _explicit(self, w, srcs, depth):
     e = self.expr(w, srcs, depth)
-    if ewidth(e) is None:
-      return ["c", e[1], w]
+    if may_be_int(e):
+      return make_explicit(e, w)
     return e
 
   def cond(self, srcs, depth):
@@ -951,6 +977,7 @@ class Gen:
     if "pt" in p:
       # a nested-struct-typed field can only be connected to a signal of that very type: drive it from a block
       p = {kk: v for kk, v in p.items() if kk != "pt"}
+      p["struct_target"] = True
       comb_targets.append((rank, p, list(srcs))); return
     if k.get("p_const") and (isinstance(t, int) or not whole) and rng.random() < k["p_const"]:
       # tie the signal to a constant (small non-zero values preferred: they coincide with live values of other nets)
@@ -970,6 +997,8 @@ class Gen:
           cls["connects"].append([p, r]); self.connect_ranks.add(rank); return
       if rng.random() < 0.3 and (isinstance(t, int) or not whole):
         cls["connects"].append([p, {"const": rng.getrandbits(p["w"])}]); return
+    if whole and not isinstance(t, int):
+      p = dict(p, struct_target=True)
     comb_targets.append((rank, p, list(srcs)))
 
   def assign_stmts(self, p, srcs, kind, t=None):
@@ -985,8 +1014,10 @@ class Gen:
     mk = lambda: self.expr(w, list(srcs), k["expr_depth"])
     def fit(e):
       # an implicit literal must fit the target; make it explicit-safe
-      if ewidth(e) is None:
+      if ewidth(e) is None and e[0] == "c":
         return ["c", e[1] & mask(w), None]
+      if (t is not None and not isinstance(t, int)) or p.get("struct_target"):
+        return make_explicit(e, w)          # a struct-typed target takes Bits (or structs) only, never a plain int
       return e
     if rng.random() < k["p_if"] and srcs:
       c = self.cond(list(srcs), 2)
